@@ -65,6 +65,14 @@ def uniform_chooser(rng):
     return lambda r, t, feas: rng.choice(feas)
 
 
+def steer(ad: Adapter, ctx, insts: List[dict]):
+    """Optional steering: an adapter may propose, per instance, a prefix of actions that drives the episode
+    towards a constraint boundary (taken only where the real mask offers them)."""
+    if not hasattr(ad, "steering_prefix"):
+        return None
+    return [ad.steering_prefix(ctx.rng, i) for i in insts]
+
+
 def make_batch(ad: Adapter, ctx, n: int, B: int) -> List[dict]:
     kinds = ad.kinds()
     return [ad.gen_instance(ctx.rng, n, ctx.rng.choice(kinds)) for _ in range(B)]
@@ -102,12 +110,13 @@ class EpisodeFailed(Exception):
     pass
 
 
-def run_batch(ctx, ad: Adapter, env, insts: List[dict], extra_pad: int = 0, forced=None, nonterm_is_violation=False):
+def run_batch(ctx, ad: Adapter, env, insts: List[dict], extra_pad: int = 0, forced=None, nonterm_is_violation=False,
+              strict_forced=True):
     """Drive the real env; an episode that does not finish within a generous cap raises
     `EpisodeFailed` (callers skip the case); it is a violation only for the termination property."""
     td0 = ad.to_td(insts)
     try:
-        ep = run_episode(env, td0, uniform_chooser(ctx.rng), extra_pad=extra_pad, forced=forced,
+        ep = run_episode(env, td0, uniform_chooser(ctx.rng), extra_pad=extra_pad, forced=forced, strict_forced=strict_forced,
                          max_steps=20 * (max(ad.n_of(i) for i in insts) + 2) + 50)
     except RuntimeError as e:
         if nonterm_is_violation:
@@ -121,7 +130,7 @@ def run_batch(ctx, ad: Adapter, env, insts: List[dict], extra_pad: int = 0, forc
 # ------------------------------------------------------------------------------------------------
 # C01 + the model tie: episodes through the real mask, model trace compared, Spec judged
 # ------------------------------------------------------------------------------------------------
-def check_feasibility(ctx, ad: Adapter, episodes_quick: int = 24, episodes_thorough: int = 400):
+def check_feasibility(ctx, ad: Adapter, episodes_quick: int = 150, episodes_thorough: int = 3000):
     env = ad.make_env()
     total = ctx.budget(episodes_quick, episodes_thorough)
     done_eps = 0
@@ -130,7 +139,7 @@ def check_feasibility(ctx, ad: Adapter, episodes_quick: int = 24, episodes_thoro
         B = ctx.rng.choice([1, 2, 4, 6])
         insts = make_batch(ad, ctx, n, B)
         try:
-            td0, ep = run_batch(ctx, ad, env, insts)
+            td0, ep = run_batch(ctx, ad, env, insts, forced=steer(ad, ctx, insts), strict_forced=False)
         except EpisodeFailed:
             done_eps += B
             continue
@@ -155,7 +164,7 @@ def check_feasibility(ctx, ad: Adapter, episodes_quick: int = 24, episodes_thoro
 # ------------------------------------------------------------------------------------------------
 # C02: no dead ends, done is stable, step bound
 # ------------------------------------------------------------------------------------------------
-def check_termination(ctx, ad: Adapter, episodes_quick: int = 24, episodes_thorough: int = 400):
+def check_termination(ctx, ad: Adapter, episodes_quick: int = 150, episodes_thorough: int = 3000):
     env = ad.make_env()
     total = ctx.budget(episodes_quick, episodes_thorough)
     done_eps = 0
@@ -204,7 +213,7 @@ def check_termination(ctx, ad: Adapter, episodes_quick: int = 24, episodes_thoro
 # ------------------------------------------------------------------------------------------------
 # C03: reward equals the objective
 # ------------------------------------------------------------------------------------------------
-def check_reward(ctx, ad: Adapter, episodes_quick: int = 24, episodes_thorough: int = 400):
+def check_reward(ctx, ad: Adapter, episodes_quick: int = 150, episodes_thorough: int = 3000):
     env = ad.make_env()
     total = ctx.budget(episodes_quick, episodes_thorough)
     done_eps = 0
@@ -247,7 +256,7 @@ def check_reward(ctx, ad: Adapter, episodes_quick: int = 24, episodes_thorough: 
 # ------------------------------------------------------------------------------------------------
 # C04: independence of batch-mates and of padding
 # ------------------------------------------------------------------------------------------------
-def check_batch_independence(ctx, ad: Adapter, groups_quick: int = 8, groups_thorough: int = 120):
+def check_batch_independence(ctx, ad: Adapter, groups_quick: int = 40, groups_thorough: int = 800):
     env = ad.make_env()
     total = ctx.budget(groups_quick, groups_thorough)
     for g in range(total):
@@ -311,7 +320,7 @@ def check_batch_independence(ctx, ad: Adapter, groups_quick: int = 8, groups_tho
 # ------------------------------------------------------------------------------------------------
 # C05: the mask hides no feasible solution (tiny instances, exhaustive)
 # ------------------------------------------------------------------------------------------------
-def check_completeness(ctx, ad: Adapter, insts_quick: int = 6, insts_thorough: int = 60, nmax_quick=3, nmax_thorough=5):
+def check_completeness(ctx, ad: Adapter, insts_quick: int = 20, insts_thorough: int = 200, nmax_quick=4, nmax_thorough=5):
     env = ad.make_env()
     total = ctx.budget(insts_quick, insts_thorough)
     nmax = ctx.budget(nmax_quick, nmax_thorough)
@@ -402,7 +411,7 @@ def corruptions(ad: Adapter, rng, inst: dict, sol: List[int]) -> List[tuple]:
     return out
 
 
-def check_checker(ctx, ad: Adapter, episodes_quick: int = 24, episodes_thorough: int = 300):
+def check_checker(ctx, ad: Adapter, episodes_quick: int = 100, episodes_thorough: int = 2000):
     env = ad.make_env()
     total = ctx.budget(episodes_quick, episodes_thorough)
     done_eps = 0
